@@ -19,20 +19,27 @@ def recorder(gt):
         def render_traps(self, traps, zone_id):
             self.calls.append(f"traps {zone_id} {gt.show(traps)}")
 
+        # the optional hooks also run the interface's default implementation (an override calling super() is ordinary usage):
+        # a default that draws through another hook shows up as an extra recorded call
         def top_hat_cz(self, location, upper_buffer, lower_buffer):
             self.calls.append(f"cz {gt.show(location)} {events.fnum(upper_buffer)} {events.fnum(lower_buffer)}")
+            super().top_hat_cz(location, upper_buffer, lower_buffer)
 
         def local_r(self, location):
             self.calls.append(f"local_r {gt.show(location)}")
+            super().local_r(location)
 
         def local_rz(self, location):
             self.calls.append(f"local_rz {gt.show(location)}")
+            super().local_rz(location)
 
         def global_r(self):
             self.calls.append("global_r")
+            super().global_r()
 
         def global_rz(self):
             self.calls.append("global_rz")
+            super().global_rz()
 
         def render_path(self, pth):
             self.calls.append("path " + events.path_value_text(pth, gt))
@@ -48,10 +55,36 @@ def recorder(gt):
     return Rec()
 
 
-def run_visualizer(m, args, S, gt):
+def minimal_recorder(gt):
+    """a renderer that implements only the abstract methods: the optional gate hooks keep their defaults, which must stay silent"""
+    stubs.install_matplotlib_stubs()
+    from bloqade.shuttle.visualizer.renderers.interface import RendererInterface
+
+    class Min(RendererInterface):
+        def __init__(self):
+            self.calls = []
+
+        def render_traps(self, traps, zone_id):
+            self.calls.append(f"traps {zone_id} {gt.show(traps)}")
+
+        def render_path(self, pth):
+            self.calls.append("path " + events.path_value_text(pth, gt))
+
+        def set_title(self, title):
+            self.calls.append("title")
+
+        def show(self):
+            self.calls.append("show")
+
+        def clear_paths(self):
+            self.calls.append("clear")
+    return Min()
+
+
+def run_visualizer(m, args, S, gt, minimal=False):
     stubs.install_matplotlib_stubs()
     from bloqade.shuttle.visualizer import PathVisualizer
-    rec = recorder(gt)
+    rec = minimal_recorder(gt) if minimal else recorder(gt)
     try:
         PathVisualizer(m.dialects, arch_spec=S, renderer=rec).run(m, tuple(args), {})
         return "ok", rec.calls, None
@@ -128,6 +161,109 @@ def reflect_dispatch(ctx, S):
             ctx.fail({"kind": "dispatch", "stmt": k, "calls": table[k]}, {"stmt": stmts[k]}, f"{k} is drawn as {table[k]}, expected {want[k]}")
 
 
+def thin_spec():
+    """the harness layout plus static zones of a single row, a single column and a single site"""
+    from bloqade.geometry.dialects.grid import Grid
+    from bloqade.shuttle.arch import ArchSpec, Layout
+    S = tweezer_prog.harness_spec()
+    st = dict(S.layout.static_traps)
+    st["row"] = Grid.from_positions([30.0, 32.0, 34.0, 36.0, 38.0], [0.0])
+    st["col"] = Grid.from_positions([44.0], [1.0, 2.5, 4.0, 5.5])
+    st["dot"] = Grid.from_positions([50.0], [7.0])
+    lay = Layout(static_traps=st, fillable={"traps", "row"}, has_cz={"traps"}, has_local={"aux", "row", "col", "dot"},
+                 special_grid=dict(S.layout.special_grid))
+    return ArchSpec(layout=lay, float_constants=dict(S.float_constants), int_constants=dict(S.int_constants))
+
+
+THIN_PROGRAMS = [
+    # fills and measurements of zones, views and shifted copies between gates: silent, whatever is filled
+    ("""
+@move
+def main(n: int):
+    z0 = spec.get_static_trap(zone_id="traps")
+    z1 = spec.get_static_trap(zone_id="aux")
+    r = spec.get_static_trap(zone_id="row")
+    c = spec.get_static_trap(zone_id="col")
+    d = spec.get_static_trap(zone_id="dot")
+    gate.top_hat_cz(z0, 1.0, 2.0)
+    init.fill([grid.sub_grid(z0, [0], [0, 1]), z0[1:3, :], r])
+    gate.local_rz(0.5, z1)
+    init.fill([grid.shift(z0, 1.0, 0.0), r[n:, :]])
+    gate.local_r(0.125, 0.25, r)
+    measure.measure((c,))
+    gate.local_rz(0.75, d)
+    gate.global_rz(0.375)
+    init.fill([z0])
+    gate.local_r(0.5, 1.5, c[:, 1:n])
+    gate.global_r(0.25, 0.5)
+""", [(1,), (3,)]),
+    # only local_rz gates (a renderer without the optional hooks sees nothing but the traps)
+    ("""
+@move
+def main(n: int):
+    z1 = spec.get_static_trap(zone_id="aux")
+    d = spec.get_static_trap(zone_id="dot")
+    for i in range(n):
+        gate.local_rz(0.5, z1)
+        gate.local_rz(0.25, d)
+""", [(0,), (2,)]),
+    # the same through a subroutine entered repeatedly
+    ("""
+@move
+def sub(z: grid.Grid[Any, Any], k: int):
+    init.fill([z[k:, :]])
+    gate.local_r(0.5, 0.25, z)
+    gate.local_rz(0.5, z[:, :])
+
+@move
+def main(n: int):
+    r = spec.get_static_trap(zone_id="row")
+    c = spec.get_static_trap(zone_id="col")
+    gate.global_r(1.0, 2.0)
+    sub(r, n)
+    sub(c, 0)
+    gate.global_rz(3.0)
+    sub(r, 1)
+""", [(0,), (2,)]),
+]
+
+
+def judge_case(ctx, m, args, S, rep, cases, key):
+    gt = tc.GridTable()
+    st, calls, err = run_visualizer(m, args, S, gt)
+    est, evs, eextra = events.run_events(m, args, S)
+    ctx.evaluations += 1
+    if est != "ok":
+        ctx.hist("outcome", "program raises in the reference executor")
+        return
+    want = expected_calls(S, evs, gt)
+    if st != "ok":
+        ctx.fail({"kind": "visualizer-raises", "error": (err or "")[:60]}, rep, f"PathVisualizer raised {err} on a program the event executor runs")
+        return
+    ntr = len(S.layout.static_traps)
+    if calls != want:
+        k = next((j for j in range(min(len(calls), len(want))) if calls[j] != want[j]), min(len(calls), len(want)))
+        ctx.fail({"kind": "calls-differ", "at": "traps" if k < ntr else "events",
+                  "symptom": "order/count" if sorted(calls) == sorted(want) or len(calls) != len(want) else "content"}, rep,
+                 f"renderer calls differ from the executed events at call {k}: {(calls[k] if k < len(calls) else '<none>')[:120]} vs "
+                 f"{(want[k] if k < len(want) else '<none>')[:120]}")
+    # a renderer that leaves the optional gate hooks at their defaults sees the traps and the paths, nothing else
+    gt2 = tc.GridTable()
+    st2, calls2, err2 = run_visualizer(m, args, S, gt2, minimal=True)
+    est2, evs2, _ = events.run_events(m, args, S)
+    want2 = [c for c in expected_calls(S, evs2, gt2) if c.startswith(("traps ", "path "))] if est2 == "ok" else None
+    if want2 is not None and (st2 != "ok" or calls2 != want2):
+        ctx.fail({"kind": "minimal-renderer-calls-differ", "status": st2}, dict(rep, renderer="minimal"),
+                 f"a renderer implementing only the abstract methods received {[c[:40] for c in calls2 if c not in want2][:3] or st2} "
+                 f"({len(calls2)} calls, expected the {len(want2)} trap and path calls)")
+    ctx.count("cases also replayed on a renderer that implements only the abstract methods")
+    ctx.hist("outcome", "replayed")
+    if len(calls) - ntr >= 2:
+        ctx.nt(key)
+    traps = clist([f"({cstr(n)}, {cstr(gt.show(g))})" for n, g in S.layout.static_traps.items()])
+    cases.append((f"({traps}, {clist([event_coq(e, gt) for e in evs])})", " | ".join(calls), rep))
+
+
 def run(ctx):
     S = tweezer_prog.harness_spec()
     reflect_dispatch(ctx, S)
@@ -150,32 +286,21 @@ def run(ctx):
                 ctx.hist("compile", "error")
                 continue
             for args in prog.arg_tuples[:ctx.pick(2, 3)]:
-                gt = tc.GridTable()
-                st, calls, err = run_visualizer(m, args, S, gt)
-                est, evs, eextra = events.run_events(m, args, S)
-                ctx.evaluations += 1
-                rep = {"src": src, "args": repr(args), "compiled_with_spec": with_spec}
-                if est != "ok":
-                    ctx.hist("outcome", "program raises in the reference executor")
-                    continue
-                want = expected_calls(S, evs, gt)
-                if st != "ok":
-                    ctx.fail({"kind": "visualizer-raises", "error": (err or "")[:60]}, rep, f"PathVisualizer raised {err} on a program the event executor runs")
-                    continue
-                ntr = len(S.layout.static_traps)
-                if calls != want:
-                    k = next((j for j in range(min(len(calls), len(want))) if calls[j] != want[j]), min(len(calls), len(want)))
-                    ctx.fail({"kind": "calls-differ", "at": "traps" if k < ntr else "events",
-                              "symptom": "order/count" if sorted(calls) == sorted(want) or len(calls) != len(want) else "content"}, rep,
-                             f"renderer calls differ from the executed events at call {k}: {(calls[k] if k < len(calls) else '<none>')[:120]} vs "
-                             f"{(want[k] if k < len(want) else '<none>')[:120]}")
-                ctx.hist("outcome", "replayed")
-                if len(calls) - ntr >= 2:
-                    ctx.nt((i, args, with_spec))
-                traps = clist([f"({cstr(n)}, {cstr(gt.show(g))})" for n, g in S.layout.static_traps.items()])
-                cases.append((f"({traps}, {clist([event_coq(e, gt) for e in evs])})", " | ".join(calls), rep))
+                judge_case(ctx, m, args, S, {"src": src, "args": repr(args), "compiled_with_spec": with_spec}, cases, (i, args, with_spec))
         if i == 0 and cases:
             ctx.sample({"program": src[src.index("@move"):][:600], "renderer_calls": cases[0][1][:500]})
+    T = thin_spec()
+    for j, (tsrc, targs) in enumerate(THIN_PROGRAMS):
+        for with_spec in (False, True):
+            msrc = tsrc if not with_spec else tsrc.rsplit("@move", 1)[0] + "@move(arch_spec=S)" + tsrc.rsplit("@move", 1)[1]
+            try:
+                m = kernels.define(msrc, S=T)["main"]
+            except Exception as e:
+                ctx.obligation(f"thin-zone program {j} compiles", False, type(e).__name__ + ": " + str(e)[:200])
+                continue
+            for args in targs:
+                judge_case(ctx, m, args, T, {"thin_src": msrc, "args": repr(args), "compiled_with_spec": with_spec}, cases, ("thin", j, args, with_spec))
+                ctx.count("programs on a layout with single-row, single-column and single-site zones (fills of views between gates)")
     chunks = [cases[i:i + 40] for i in range(0, len(cases), 40)]
     bodies = [(f"vis_{k}", COQ_IMPORT + "Eval vm_compute in (lines (map (fun c => show_vis (vis (fst c) (snd c))) %s))." %
                clist([c[0] for c in ch])) for k, ch in enumerate(chunks)]
@@ -196,6 +321,18 @@ def run(ctx):
 
 def replay(data):
     inp = data["input"]
+    if "thin_src" in inp:
+        T = thin_spec()
+        m = kernels.define(inp["thin_src"], S=T)["main"]
+        args = eval(inp["args"])
+        gt = tc.GridTable()
+        mini = inp.get("renderer") == "minimal"
+        st, calls, err = run_visualizer(m, args, T, gt, minimal=mini)
+        est, evs, _ = events.run_events(m, args, T)
+        want = expected_calls(T, evs, gt)
+        if mini:
+            want = [c for c in want if c.startswith(("traps ", "path "))]
+        return st != "ok" or calls != want, f"{len(calls)} calls ({st})"
     if "src" not in inp:
         return True, "re-run bin/check C16"
     S = tweezer_prog.harness_spec()
@@ -206,6 +343,10 @@ def replay(data):
     m = kernels.define(msrc, S=S, **kernel_ns)["main"]
     args = eval(inp["args"])
     gt = tc.GridTable()
-    st, calls, err = run_visualizer(m, args, S, gt)
+    mini = inp.get("renderer") == "minimal"
+    st, calls, err = run_visualizer(m, args, S, gt, minimal=mini)
     est, evs, _ = events.run_events(m, args, S)
-    return st != "ok" or calls != expected_calls(S, evs, gt), f"{len(calls)} calls ({st})"
+    want = expected_calls(S, evs, gt)
+    if mini:
+        want = [c for c in want if c.startswith(("traps ", "path "))]
+    return st != "ok" or calls != want, f"{len(calls)} calls ({st})"
